@@ -902,3 +902,4 @@ def run_finifirst(prog, ctx=None):
                 res.ob("%s:%s at line %s" % (f.qn, norm(show(n, f))[:40], n.get("l", f.line)), ok, f, n.get("l", f.line) or f.line,
                        "" if ok else "`%s` lowers the used length on a path that has not passed the finalizer loop of %s: the elements it drops are never finalized" % (norm(show(n, f)), f.qn))
     return res
+
